@@ -26,7 +26,7 @@ def plan(tier):
                 'aware mutations of canary-carrying requests) and the known internal-error paths; a root logging handler '
                 'scans every record of level >= INFO (message, arguments, formatted traceback) and every result message '
                 'for canary windows in raw, hex, base64 and escaped form; a cell is (logger, level, source of the record)',
-        'min_monitor': {'derivations_repeated_with_template_attributes': 300, 'records_scanned': 3000, 'canaries_planted': 300, 'result_messages_scanned': 1000,
+        'min_monitor': {'secret_items_with_wrong_lengths': 2000, 'derivations_repeated_with_template_attributes': 300, 'records_scanned': 3000, 'canaries_planted': 300, 'result_messages_scanned': 1000,
                         'failure_paths_logged': 200, 'clients_configured_with_a_password': 100,
                         'crypto_uses_of_canary_keys': 1000},
         'assumptions': ['DEBUG records are allowed to carry encodings (the property is about the default level INFO)',
@@ -112,6 +112,23 @@ def run_case(ctx, case):
                     ctx.count('failure_paths_logged')
                     if s2:
                         scan_result(ctx, rig.Result(s2[0]), 'mutated:' + mk)
+                # the secret-carrying items themselves announce more bytes than there are (a length in bits, off by one or by
+                # a block), or the frame ends inside them (frame header adjusted): the parse failure is logged
+                for secret_bytes in (val, pw.encode()):
+                    at = req.find(secret_bytes)
+                    if at < 8:
+                        continue
+                    n_ = len(secret_bytes)
+                    variants = [req[:at - 4] + struct.pack('!I', m_) + req[at:] for m_ in (n_ * 8, n_ + 1, n_ + 8, n_ + 64, 2 ** 31 - 1)]
+                    for cut in (at + n_ // 2, at + n_ - 1, at + 1):
+                        variants.append(req[:4] + struct.pack('!I', cut - 8) + req[8:cut])
+                    for fr in variants:
+                        s2, e2 = rig.session_roundtrip(srv.engine, fr, cert, rng)
+                        ctx.ev()
+                        ctx.count('failure_paths_logged')
+                        ctx.count('secret_items_with_wrong_lengths')
+                        if s2:
+                            scan_result(ctx, rig.Result(s2[0]), 'wrong-length')
                 # wrong certificate / no certificate with the same request
                 for bad in (None, rig.make_cert(('alice',), 'server'), rig.make_cert(('alice', 'bob'), 'client')):
                     s3, e3 = rig.session_roundtrip(srv.engine, req, bad, rng)
